@@ -8,7 +8,7 @@ from scipy import sparse as sp
 from .. import gen, ref
 from ..core import Clause, Out, Property
 from ..env import L
-from ..lib import F, Q, S, SF, to_float
+from ..lib import F, Q, S, SF, ahash, to_float
 
 U_ = ref.U
 
@@ -125,6 +125,16 @@ def product_cases(draw, tier):
     m, k, n = draw(st.integers(1, hi)), draw(st.integers(1, hi)), draw(st.integers(1, hi))
     A, pa = draw(gen.qarray(m, k, None, -60, 60))
     B, pb = draw(gen.qarray(k, n, None, -60, 60))
+    if draw(st.integers(0, 7)) == 0:
+        # the four component planes have the SAME number of stored entries per row but at different columns (one entry
+        # per row and plane, cyclically shifted): equal CSR row pointers, different column indices
+        sh = draw(st.lists(st.integers(0, max(0, k - 1)), min_size=4, max_size=4))
+        vals = draw(gen.qarray(m, 1, "int"))[0][:, 0, :]
+        A = np.zeros((m, k, 4))
+        for c in range(4):
+            for i in range(m):
+                A[i, (i + sh[c]) % k, c] = vals[i, c] if vals[i, c] != 0 else 1.0
+        pa = "plane_shifted"
     return {"A": A, "B": B, "pa": pa, "pb": pb}
 
 
@@ -317,12 +327,22 @@ def check_herm(case):
     n = B.shape[1]
     want = ref.conjT(A)
     for name, mk in (("dense", Q), ("sparse", S)):
-        ok, r = out.call(f"quat_hermitian({name})", u.quat_hermitian, mk(A))
+        arg = mk(A)
+        h0 = ahash(arg)
+        ok, r = out.call(f"quat_hermitian({name})", u.quat_hermitian, arg)
         if ok:
             out.equal_bits(f"quat_hermitian({name}):equals conjugate transpose", to_float(r), want)
+            # the operand is still the matrix it was (a transpose may be a view of it; the conjugation must not write
+            # through), so it can be used again
+            out.true(f"quat_hermitian({name}):operand unchanged", ahash(arg) == h0, "the argument was modified in place")
+            out.equal_bits(f"quat_hermitian({name}):operand still holds A after the call", to_float(arg), A)
+            hr = ahash(r) if isinstance(r, (np.ndarray, u.SparseQuaternionMatrix)) else None
             ok2, r2 = out.call(f"quat_hermitian({name}) twice", u.quat_hermitian, r)
             if ok2:
                 out.equal_bits(f"quat_hermitian({name}):involution", to_float(r2), A)
+                if hr is not None:
+                    out.true(f"quat_hermitian({name}):operand unchanged (second application)", ahash(r) == hr,
+                             "the argument was modified in place")
     # (AB)^H = B^H A^H, all through the library, compared with the exact bound
     Ce, Se = ref.mat_mul_exact(A, B)
     bound = (4 * k + 4) * 4 * U_ * ref.conjT(ref.exact_to_float(Se)) + 1e-300
